@@ -190,8 +190,14 @@ def _worker(args):
 
 
 def pmap(fn, items, procs=None, chunksize=None):
-    """fn must be a module-level function. Returns list of ('ok', result) | ('exc', text)."""
+    """fn must be a module-level function. Returns list of ('ok', result) | ('exc', text), in the order of `items`.
+    A worker process that dies (e.g. killed by the kernel for memory) is detected (BrokenProcessPool) instead of hanging the
+    pool for ever; the unfinished items are retried once, one process per item with little parallelism, and reported as
+    ('exc', ...) if they kill their worker again.  Every worker gets an address-space limit so that one runaway case cannot
+    take the machine down."""
     import multiprocessing as mp
+    from concurrent.futures import ProcessPoolExecutor
+    from concurrent.futures.process import BrokenProcessPool
     items = list(items)
     if not items:
         return []
@@ -199,10 +205,41 @@ def pmap(fn, items, procs=None, chunksize=None):
     if procs == 1 or len(items) == 1:
         return [_worker((fn, it)) for it in items]
     ctx = mp.get_context("fork")
-    if chunksize is None:
-        chunksize = max(1, len(items) // (procs * 8))
-    with ctx.Pool(procs) as pool:
-        return pool.map(_worker, [(fn, it) for it in items], chunksize=chunksize)
+    results = [None] * len(items)
+
+    def run(indices, nproc):
+        pending = list(indices)
+        try:
+            with ProcessPoolExecutor(max_workers=nproc, mp_context=ctx, initializer=_limit_memory) as ex:
+                futs = {i: ex.submit(_worker, (fn, items[i])) for i in pending}
+                for i, f in futs.items():
+                    try:
+                        results[i] = f.result()
+                    except BrokenProcessPool:
+                        raise
+                    except BaseException as e:  # noqa
+                        results[i] = ("exc", f"{type(e).__name__}: {e}")
+        except BrokenProcessPool:
+            pass
+        return [i for i in pending if results[i] is None]
+    left = run(range(len(items)), procs)
+    if left:
+        left2 = []
+        for i in left:                         # isolate the culprit: one fresh single-worker pool per item
+            if run([i], 1):
+                left2.append(i)
+        for i in left2:
+            results[i] = ("exc", "worker process died (killed, most likely for memory) while running this item")
+    return results
+
+
+def _limit_memory():
+    try:
+        import resource
+        cap = int(os.environ.get("VERIF_WORKER_MEM_GB", "12")) * 2 ** 30
+        resource.setrlimit(resource.RLIMIT_AS, (cap, cap))
+    except Exception:
+        pass
 
 
 def chunks(lst, n):
